@@ -99,6 +99,10 @@ func c20EditJob(tier string) Job {
 				if err := json.Unmarshal([]byte(text), &pool); err != nil {
 					panic(err)
 				}
+				// (the pool is encoded once before it is edited, as galaxy-ipam does when it logs a configuration it has loaded: what an
+				// encoding says must follow the edits that come after it)
+				_, _ = json.Marshal(&pool)
+				_ = pool.String()
 				set := map[uint32]bool{}
 				for _, t := range st.ips {
 					rg := nets.ParseIPRange(t)
